@@ -1,7 +1,6 @@
 import BqVerif.Model.Crash
 /-
-C14 - the potential argument: every transition except `wake` (disabled when no outgoing
-thread ever reset) leaves every node's weight at most where it was, up to the accounted
+C14 - the potential argument: every transition leaves every node's weight at most where it was, up to the accounted
 growth; a critical delivery lowers the weight of the employee it reads by at least one.
 -/
 namespace BqVerif.Crash
@@ -19,8 +18,6 @@ namespace BqVerif.Crash
     (baseShutdown t s p).outbox = s.outbox := rfl
 @[simp] theorem baseShutdown_upOpen (t : Topo) (s : State) (p : Nat) :
     (baseShutdown t s p).upOpen = s.upOpen := rfl
-@[simp] theorem baseShutdown_half (t : Topo) (s : State) (p : Nat) :
-    (baseShutdown t s p).half = s.half := rfl
 @[simp] theorem baseShutdown_toClient (t : Topo) (s : State) (p : Nat) :
     (baseShutdown t s p).toClient = s.toClient := rfl
 @[simp] theorem baseShutdown_copen (t : Topo) (s : State) (p : Nat) :
